@@ -278,6 +278,59 @@ class DispatchEval(KindEval):
                         changed = True
                         break
         self.dep = dep
+        # a lookup of the character in a constant table: `TABLE.iter().find(|(first, ..)| *first == ch)` - found exactly when the
+        # character is one of the table's keys
+        self.tabres = {}
+        try:
+            from .c14 import items_mentioned
+            char_tables = []
+            for item in sorted(items_mentioned(F, fn)):
+                v = (F.consts.get(item) or {}).get("v")
+                rows = v.get("fields") if isinstance(v, dict) else None
+                if isinstance(rows, dict) and rows:
+                    keys = set()
+                    for r in rows.values():
+                        fs = (r or {}).get("fields") if isinstance(r, dict) else None
+                        cs = [x["char"] for x in (fs or {}).values() if isinstance(x, dict) and "char" in x] if isinstance(fs, dict) else ([r["char"]] if isinstance(r, dict) and "char" in r else [])
+                        if len(cs) == 1:
+                            keys.add(cs[0])
+                        else:
+                            keys = None
+                            break
+                    if keys:
+                        char_tables.append(keys)
+            if len(char_tables) == 1:
+                for bid, t in fn.calls():
+                    cn = callee_name(t) or ""
+                    if not cn.endswith(("::find", "::any", "::position")) or t.get("dest") is None or t["dest"]["p"]:
+                        continue
+                    cls = [x for x in t.get("fn_items", []) if x in F.fns and F.fns[x].kind == "Closure"]
+                    if len(cls) != 1:
+                        continue
+                    cf = F.fns[cls[0]]
+                    eq_only = any(st["k"] == "assign" and st["rv"]["k"] == "binop" and st["rv"].get("op") == "Eq" for b_ in cf.blocks for st in b_["stmts"]) and \
+                        not any(st["k"] == "assign" and st["rv"]["k"] == "binop" and st["rv"].get("op") in ("Ne", "Lt", "Le", "Gt", "Ge") for b_ in cf.blocks for st in b_["stmts"]) and \
+                        not any(True for _ in cf.calls())
+                    captures_char = False
+                    for b_ in fn.blocks:
+                        for st in b_["stmts"]:
+                            if st["k"] == "assign" and st["rv"].get("closure") == cf.def_:
+                                for o in st["rv"].get("ops", []):
+                                    if o.get("k") in ("copy", "move"):
+                                        vv = self.du.val_operand(o)
+                                        if vv[0] == "ref" and not vv[1][1] and vv[1][0] in char_locals:
+                                            captures_char = True
+                                        if vv[0] in ("ref", "place") and self.du.canon((vv[1][0], tuple(e for e in vv[1][1] if e != "*"))) == dkey:
+                                            captures_char = True
+                                        if vv[0] == "place" and not vv[1][1] and vv[1][0] in char_locals:
+                                            captures_char = True
+                    if eq_only and captures_char:
+                        self.tabres[bid] = (char_tables[0], cn.rsplit("::", 1)[-1])
+        except Exception as _e:
+            import os as _os
+            if _os.environ.get('RWS_DEBUG'):
+                raise
+            self.tabres = {}
 
     def is_dispatch_operand(self, x):
         return self.du.canon(place_key(x)) == self.dkey or (not x["p"] and x["l"] in self.char_locals)
@@ -356,6 +409,14 @@ class DispatchEval(KindEval):
             elif t["k"] == "switch" and t.get("discr_ty") == "char" and t["discr"].get("k") in ("copy", "move") and self.is_dispatch_operand(t["discr"]):
                 env["tested"] = True
                 succs = self.char_targets(t)
+            elif t["k"] == "switch" and self.tabres:
+                dv = self.du.val_operand(t["discr"])
+                pv = self.du.val_place(self.du.canon(dv[1])) if dv[0] == "discr" else ("none",)
+                if pv[0] == "call" and pv[3] in self.tabres and self.ch != "<digit>":
+                    keys, how = self.tabres[pv[3]]
+                    hit = 1 if self.ch in keys else 0
+                    env["tested"] = True
+                    succs = [tb for val, tb in t["targets"] if val == hit] or [t["otherwise"]]
             env.pop("fresh", None)
             for s_ in succs:
                 if s_ not in self.cfg.blocks or self.cfg.blocks[s_].get("cleanup"):
